@@ -31,7 +31,7 @@ ASSUMPTIONS = [
 ]
 
 # (alphabet size, max data length) of the division-vector family; data = every sorted sequence over the alphabet
-DIV = {"quick": (4, 4), "thorough": (5, 5)}
+DIV = {"quick": (4, 3), "thorough": (5, 5)}
 DIV_OTHER = {"quick": (4, 2), "thorough": (4, 4)}  # float / str / datetime index
 NPK = {"quick": 8, "thorough": 10}  # target npartitions 1..NPK
 UMAX = {"quick": 5, "thorough": 6}  # rows of the unknown-division sources
@@ -195,6 +195,12 @@ def expected_refusal(src, b, force):
 
 def known_class(case):
     """narrow input classes of recorded findings (C44.findings.json); appended to the finding key"""
+    fam = case[0]
+    if fam == "np" and case[4][0] == "k" and case[1] != "str" and case[5] > len(case[4][1]) - 1:
+        return "known-numeric-divisions-upsample"  # interpolated divisions collapse; .npartitions keeps claiming k
+    if fam == "div" and case[4][0] == "k" and case[6] and case[5][0] < case[4][1][0]:
+        a = case[4][1]
+        return "force-lower-left-end" + ("-single-label-last" if len(a) >= 2 and a[-1] == a[-2] else "")
     return None
 
 
